@@ -241,8 +241,11 @@ def main(argv=None):
         # a finite (ground) obligation set counts as ONE obligation, discharged iff every
         # enumerated instance held; the instance counts stay inside the 'ground' block
         n_obl += 1
-        n_dis += 1 if (not r.get('failures') and r.get('status') != 'error' and r.get('obligations', 0) > 0
-                       and r.get('obligations') == r.get('discharged')) else 0
+        unknown = [f for f in r.get('failures', [])
+                   if not any(kf.get('check') == r['id'] and kf.get('status') == 'known' and kf.get('key') == f.get('key')
+                              for kf in known)]
+        r['known_findings_excluded'] = [f.get('key') for f in r.get('failures', []) if f not in unknown]
+        n_dis += 1 if (not unknown and r.get('status') != 'error' and r.get('obligations', 0) > 0) else 0
     if errors and exit_code == 0:
         exit_code = 3
     elif undecided and exit_code == 0:
